@@ -14,6 +14,12 @@ COQ_PRELUDE = '''Definition cls_eqb (a b : cls) : bool := match a, b with CBits,
 
 def gen_cases(rng, tier):
     L = 5 if tier == 'quick' else 7
+    # very long contents (beyond any plausible internal block or chunk size): iteration, indexing and slicing in both numberings, oracle only
+    for n in ([65537, 70001] if tier == 'quick' else [32769, 65536, 65537, 70001, 131073, 200003]):
+        bits = rand_bits(rng, n, 'rand')
+        for lsb0 in (False, True):
+            yield {'op': 'seq', 'cls': rng.choice(CLASSES), 'bits': bits, 'route': 'bin', 'lsb0': lsb0}
+            yield {'op': 'slice', 'cls': rng.choice(CLASSES), 'bits': bits, 'k': [rng.randrange(-n, n), None, rng.choice([-3, 7, -1, 4097])], 'route': 'bin', 'lsb0': lsb0}
     # L0 + L2 exhaustive small slices
     for l in range(0, L + 1):
         bits = rand_bits(rng, l, 'rand')
@@ -39,11 +45,11 @@ def gen_cases(rng, tier):
         if rng.random() < 0.4:
             yield {'op': 'slice', 'cls': rng.choice(CLASSES), 'bits': bits, 'k': [r(), r(), rng.choice([None, 1, -1, 2, -2, 3, -3, 7, -5, -7])], 'route': 'bin', 'lsb0': True}
         yield {'op': 'getitem', 'cls': rng.choice(CLASSES), 'bits': bits, 'i': rng.choice([0, -1, l - 1, l, -l, -l - 1, rng.randrange(-l - 2, l + 3), 1 << 65, -(1 << 65)]), 'route': rng.choice(ROUTES)}
-        yield {'op': 'seq', 'cls': rng.choice(CLASSES), 'bits': bits, 'route': rng.choice(ROUTES)}
+        yield {'op': 'seq', 'cls': rng.choice(CLASSES), 'bits': bits, 'route': rng.choice(ROUTES), 'lsb0': rng.random() < 0.3}
         # concatenation
         l2 = rand_len(rng, tier)
         bits2 = rand_bits(rng, l2)
-        kind = rng.choice(CLASSES + CLASSES + ['str', 'list', 'tuple', 'bitarray', 'bytes', 'bytearray'])
+        kind = rng.choice(CLASSES + CLASSES + ['str', 'list', 'tuple', 'bitarray', 'bytes', 'bytearray'] + ITERATOR_KINDS)
         if kind in ('bytes', 'bytearray'): bits2 = bits2[:len(bits2) - len(bits2) % 8]
         yield {'op': rng.choice(['add', 'add', 'radd']) if kind not in CLASSES else 'add', 'cls': rng.choice(CLASSES), 'bits': bits, 'other': kind, 'bits2': bits2,
                'route': rng.choice(ROUTES), 'pos': rng.choice([None, 0, l // 2, l])}
@@ -124,7 +130,7 @@ def oracle(c, obs):
         exp = ('ok', bits[i] == '1') if -len(bits) <= i < len(bits) else ('err', 'IndexError')
         return None if obs == exp else f"{c['cls']}({bits!r})[{i}] gave {obs}, expected {exp}"
     if op == 'seq':
-        exp = ('ok', [len(bits), len(bits) != 0, bits, True])
+        exp = ('ok', [len(bits), len(bits) != 0, bits[::-1] if c.get('lsb0') else bits, True])
         return None if obs == exp else f"len/bool/iter of {c['cls']}({bits!r}) via {c['route']} gave {obs}, expected {exp}"
     if op in ('add', 'radd'):
         res = bits + c['bits2'] if op == 'add' else c['bits2'] + bits
@@ -152,15 +158,17 @@ def coq_check(c, obs):
     if op == 'l0_slice':
         return f"rbits_eqb (seq_slice false {cbits(c['bits'])} {cslice(*c['k'])}) {cres(obs, cbits)}"
     if op == 'slice':
+        if len(c['bits']) > 20000: return None
         o = ('ok', obs[1][0]) if obs[0] == 'ok' else obs
         return f"rbits_eqb (bs_getitem_slice {cbool(bool(c.get('lsb0')))} {cbits(c['bits'])} {cslice(*c['k'])}) {cres(o, cbits)}"
     if op == 'getitem':
         return f"rbool_eqb (bs_getitem_int {cbool(bool(c.get('lsb0')))} {cbits(c['bits'])} {cz(c['i'])}) {cres(obs, cbool)}"
     if op == 'seq':
         if obs[0] != 'ok': return 'false'
+        if len(c['bits']) > 4000: return None          # very long data: implementation against the sequence oracle only (the model's iteration is quadratic)
         l, t, it, _ = obs[1]
         return (f"(bs_len {cbits(c['bits'])} =? {l}) && Bool.eqb (bs_bool {cbits(c['bits'])}) {cbool(t)} && "
-                f"rbits_eqb (bs_iter false {cbits(c['bits'])}) (Ok {cbits(it)})")
+                f"rbits_eqb (bs_iter {cbool(bool(c.get('lsb0')))} {cbits(c['bits'])}) (Ok {cbits(it)})")
     if op in ('add', 'radd'):
         if obs[0] != 'ok': return 'false'
         r = obs[1]
